@@ -181,6 +181,34 @@ def copy_feature(f, dialect=None):
     return g
 
 
+def _rel_present(ins, fmt, key_for_rel, h):
+    """completeness of the links filed for the kept newcomer: GFF3 - a non-empty Parent list is written by one INSERT
+    per element; GTF - the rows (t, key, 1) [t != key] and (g, t, 1) [t != g] of the NEWCOMER's own transcript_id / gene_id
+    are among the rows written (whatever else the merged record carries)"""
+    rows = []
+    for e in ins:
+        try:
+            if e.how == "executemany":
+                for r in e.args:
+                    t, conflict, cols, vals = IM.insert_values(e, list(r))
+                    rows.append(dict(zip(cols or Q.TABLE_COLS["relations"], vals)))
+            else:
+                t, conflict, cols, vals = IM.insert_values(e)
+                rows.append((dict(zip(cols or Q.TABLE_COLS["relations"], vals)), e.forall))
+        except (Q.SQLArgs, Q.SQLSyntax, Undecided, KeyError):
+            return z3.BoolVal(False)
+    if fmt == "gff":
+        plen = h["parents"].length
+        has_forall = any(isinstance(r, tuple) and r[1] is not None and r[1][0] is h["parents"] for r in rows)
+        return z3.Implies(plen > 0, z3.BoolVal(has_forall))
+    plain = [r for r in rows if isinstance(r, dict)]
+    tk = z3.Or(*[z3.And(IM.veq(r["parent"], h["tid"]), IM.veq(r["child"], key_for_rel), IM.veq(r["level"], 1)) for r in plain]) if plain else z3.BoolVal(False)
+    gt = z3.Or(*[z3.And(IM.veq(r["parent"], h["gid"]), IM.veq(r["child"], h["tid"]), IM.veq(r["level"], 1)) for r in plain]) if plain else z3.BoolVal(False)
+    t_is_key = SStr.of(h["tid"]).z3() == SStr.of(key_for_rel).z3()
+    t_is_g = SStr.of(h["tid"]).z3() == SStr.of(h["gid"]).z3()
+    return z3.And(z3.Or(t_is_key, tk), z3.Or(t_is_g, gt))
+
+
 def _rel_goals(ins, fmt, key_for_rel, h):
     goals = []
     for e in ins:
@@ -262,7 +290,7 @@ def unit_collision(U):
                     key_for_rel = k
                 # relations of the kept newcomer are filed under its final key
                 ins = [e for e in rel_dml if e.kind == "insert"]
-                goals = _rel_goals(ins, fmt, key_for_rel, h)
+                goals = _rel_goals(ins, fmt, key_for_rel, h) + [_rel_present(ins, fmt, key_for_rel, h)]
                 U.prove(base + ".relations#p%d" % p.index, "the kept newcomer's links are filed under its final key (GFF3: (Parent[i], key', 1); GTF: (t, key', 1), (g, key', 2), (g, t, 1)); nothing else is inserted into relations",
                         p.pc, z3.And(*goals) if goals else z3.BoolVal(True), {}, replay=replay)
 
@@ -440,6 +468,39 @@ def _native_merge_fields(fmt, fmf):
             "violates": any(sorted(got[c].split(",")) != sorted(exp[c].split(",")) for c in fmf) or sorted(row.attributes["Name"]) != ["n0", "n1", "n2"]}
 
 
+def _native_merge_links(fmt):
+    """replay for the links of merged records: lines that merge (same key, same columns) but name different parents"""
+    n = 6
+    if fmt == "gff":
+        feats = [mkfeat("p%d" % i) for i in range(n)] + [mkfeat("k", ft="exon", Parent=["p%d" % i]) for i in range(n)]
+        kw = dict(id_spec="ID")
+        dial = None
+        exp = {("p%d" % i, "k", 1) for i in range(n)}
+    else:
+        feats = [F.Feature(seqid="c", source="s", featuretype="exon", start=1, end=5, strand="+", attributes={"gene_id": ["g"], "transcript_id": ["t%d" % i], "exon_id": ["k"]}) for i in range(n)]
+        kw = dict(id_spec={"exon": "exon_id", "gene": "gene_id", "transcript": "transcript_id"}, disable_infer_genes=True, disable_infer_transcripts=True)
+        dial = dict(constants.dialect, fmt="gtf")
+        exp = {("t%d" % i, "k", 1) for i in range(n)} | {("g", "t%d" % i, 1) for i in range(n)} | {("g", "k", 2)}
+    out = {}
+    bad = False
+    for mode in ("create_db", "create_db+update"):
+        try:
+            cut = len(feats) if mode == "create_db" else len(feats) - 2
+            db = gffutils.create_db([copy_feature(f, dial) for f in feats[:cut]], ":memory:", merge_strategy="merge", dialect=dial, **kw)
+            if cut < len(feats):
+                db.update([copy_feature(f, dial) for f in feats[cut:]], merge_strategy="merge", make_backup=False, **{k: v for k, v in kw.items() if k != "id_spec"}, id_spec=kw["id_spec"])
+            rel = {tuple(r) for r in db.conn.execute("SELECT parent, child, level FROM relations")}
+            out[mode] = sorted(exp - rel)
+            if fmt == "gff":
+                rel = {r for r in rel if r[2] == 1}
+            if not exp <= rel:
+                bad = True
+        except Exception as ex:
+            out[mode] = "raised %r" % (ex,)
+            bad = True
+    return {"inputs": {"fmt": fmt, "lines": [str(f) for f in feats[-n:]], "merge_strategy": "merge"}, "expected": "every line's own parent link is filed under the merged record", "observed": {"links missing": out}, "violates": bad}
+
+
 def unit_collision_merge(U):
     """the populate loop when the collision is resolved by merging (the merged record `fixed` is what
     _do_merge returned, contract C05.do_merge.*): the stored row under fixed.id gets fixed's attributes and,
@@ -515,9 +576,10 @@ def unit_collision_merge(U):
                         "'merge' ==> only UPDATEs WHERE id = <id of the merged record>; attributes := json(merged attributes) and, for every field of force_merge_fields, column <field> := merged.<field> (column and value in lock-step); no other column written",
                         p.pc, goal, {}, replay=replay)
                 rel = [e for e in stm if e.table == "relations"]
-                goals = [z3.BoolVal(all(e.kind == "insert" for e in rel))] + _rel_goals([e for e in rel if e.kind == "insert"], fmt, kid, h)
-                U.prove(base + ".relations#p%d" % p.index, "'merge' ==> the newcomer's links are filed under the id of the record it was merged into; nothing else touches relations",
-                        p.pc, z3.And(*goals), {}, replay=replay)
+                goals = [z3.BoolVal(all(e.kind == "insert" for e in rel))] + _rel_goals([e for e in rel if e.kind == "insert"], fmt, kid, h) + \
+                    [_rel_present([e for e in rel if e.kind == "insert"], fmt, kid, h)]
+                U.prove(base + ".relations#p%d" % p.index, "'merge' ==> the NEWCOMER's own links (its Parent values / its transcript_id and gene_id) are filed, under the id of the record it was merged into; nothing else touches relations",
+                        p.pc, z3.And(*goals), {}, replay=lambda m, fmt=fmt: _native_merge_links(fmt))
                 other = [e for e in stm if e.table not in ("features", "relations")]
                 U.prove(base + ".frame#p%d" % p.index, "'merge' step writes no other table", p.pc, z3.BoolVal(not other), {}, replay=replay)
 
